@@ -27,6 +27,12 @@ func newWorldStream(chain string) *worldStream {
 	return &worldStream{w: world.New(chain), chain: chain, members: map[string]*keys.Member{}, now: 1700000000 * 1e9, height: 1, known: map[string]bool{}}
 }
 
+// reset starts a fresh world (used after an event that would halt a real chain)
+func (s *worldStream) reset() {
+	s.w = world.New(s.chain)
+	s.known = map[string]bool{}
+}
+
 func (s *worldStream) push(o *tr.Op) { s.q = append(s.q, o) }
 func (s *worldStream) pop() *tr.Op {
 	o := s.q[0]
